@@ -354,14 +354,14 @@ def norm(x, ord=None, axis=None, keepdims=False):
     sq = raw * raw
     if axis is None:
         s = sq.sum()
-        r = _as_real(s).sqrt() if isinstance(s, Sym) else float(_np.sqrt(float(s)))
+        r = _as_real(s).sqrt() if isinstance(s, Sym) else _np.float64(_np.sqrt(float(s)))
         if keepdims:
             o = _np.empty((1,) * raw.ndim, dtype=object)
             o.reshape(-1)[0] = r
             return _rewrap(o, ldt)
         return r
     s = sq.sum(axis=axis, keepdims=keepdims)
-    return _elementwise(lambda v: _as_real(v).sqrt() if isinstance(v, Sym) else float(_np.sqrt(float(v))), s, ldt)
+    return _elementwise(lambda v: _as_real(v).sqrt() if isinstance(v, Sym) else _np.float64(_np.sqrt(float(v))), s, ldt)
 
 
 _FUNCS[_np.linalg.norm] = norm
